@@ -71,6 +71,12 @@ pub fn ops_for(d: usize, tier: Tier) -> Vec<Op> {
     // operands with cached feasibility states of their own
     gs.push(GSpec::Eliminated(Box::new(GSpec::HardTanh(0))));
     gs.push(GSpec::Eliminated(Box::new(GSpec::User(user_trees(d)[1].clone()))));
+    // ... and with holes in its arena: the "then" terminal of an empty polytope is pruned away
+    gs.push(GSpec::Eliminated(Box::new(if d == 1 {
+        GSpec::FromPoly(vec![(vec![1.0], 0.0), (vec![-1.0], -1.0)], true)
+    } else {
+        GSpec::FromPoly(vec![(vec![1.0, 1.0], 0.0), (vec![-1.0, -1.0], -1.0)], true)
+    })));
     let mut ops = vec![Op::Elim];
     for g in gs {
         ops.push(Op::Compose(g.clone(), false));
@@ -333,8 +339,9 @@ pub fn run_case(c: &Case) -> CaseOut {
     let su = snap(&u);
     let mut conf = 0u64;
     let mut conf_err = None;
+    let exact_values = sp.is_small_dyadic();
     let judged = compare_pruned(&su, &sp, &mut out, &mut |face| {
-        let (n, e) = conform_face(&p, &sp, face, true);
+        let (n, e) = conform_face(&p, &sp, face, exact_values);
         conf += n;
         if let Some(e) = e {
             conf_err = Some(e)
@@ -375,6 +382,25 @@ fn opname(op: &Op) -> &'static str {
     op.name()
 }
 
+fn wedge_cases() -> Vec<Case> {
+    let mut v = vec![];
+    let first = TSpec::Dec(r1(&[0.0, 1.0], 1000.0), vec![Some(TSpec::Leaf(Aff::identity(2))), Some(TSpec::Leaf(Aff::identity(2)))]);
+    let konst = |c: f64| Some(TSpec::Leaf(r1(&[0.0, 0.0], c)));
+    for s in [1.0f64, 1e3, 1e6, 1e8] {
+        for eps in [0.1f64, 0.01, 0.125] {
+            for (px, py) in [(0.1f64, 0.7f64), (1.3, -2.1), (0.0, 0.0), (1.0 / 3.0, 1.0 / 7.0)] {
+                let c1 = r1(&[-eps * s, s], (-eps * px + py) * s);
+                let c2 = r1(&[-eps * s, -s], (-eps * px - py) * s);
+                let wedge = TSpec::Dec(c1, vec![konst(7.0), Some(TSpec::Dec(c2, vec![konst(8.0), konst(2.0)]))]);
+                v.push(Case { init: Init::Spec(first.clone()), ops: vec![Op::Compose(GSpec::User(wedge.clone()), true)] });
+                v.push(Case { init: Init::Spec(first.clone()), ops: vec![Op::Apply(r1(&[1.0, 1.0], 0.5)), Op::Arith('+', wedge.clone())] });
+                v.push(Case { init: Init::Spec(first.clone()), ops: vec![Op::Compose(GSpec::User(wedge), false), Op::Elim] });
+            }
+        }
+    }
+    v
+}
+
 pub fn run(tier: Tier) -> Report {
     let mut rep = Report::new("C03", tier, "model_checking");
     let t0 = std::time::Instant::now();
@@ -403,6 +429,12 @@ pub fn run(tier: Tier) -> Report {
     let total = par_cases(&tasks, |_, (init, k)| run_init(init, k, tier));
     if std::env::var("VERIF_TIMING").is_ok() { eprintln!("explored: {:.1}s", t0.elapsed().as_secs_f64()); }
     rep.absorb(total);
+    // sharp wedges eps*(x-px) >= |y-py| with rows scaled by up to 1e8 grafted below a non-root terminal: the LP
+    // vertex of the wedge's path polytope misses the absolute 1e-8 tolerance of `contains`, the wedge is fat
+    let wc = wedge_cases();
+    rep.set("wedge_histories", wc.len() as u64);
+    let tw = par_cases(&wc, |_, c| run_case(c));
+    rep.absorb(tw);
     rep.set("bound", match tier {
         Tier::Quick => "histories of <= 3 operations (<= 2 from generator trees) over {infeasible_elimination, compose pruned/unpruned with 11-13 right operands, apply_func with 4 maps} ending in a pruning operation, from 1-D/2-D generator trees (<= 7 nodes, parallel/concurrent predicates, partial) and from_aff/from_poly roots",
         Tier::Thorough => "histories of <= 4 operations from one-input from_aff/from_poly roots, <= 3 from two-input ones, <= 2 from generator trees with <= 8 nodes (denser selection)",
